@@ -162,8 +162,18 @@ func (vc *VC) mergeStates(states []*State, conds []string) *State {
 		}
 	} else {
 		out.epoch = nextEpoch()
+		// merge explicitly what is explicit somewhere, what the function itself touches, and activation-local ghosts;
+		// any other component is "unknown since some havoc" on at least one side and stays unknown (lazy new epoch)
+		for _, s := range states {
+			for k := range s.comp {
+				names[k] = true
+			}
+		}
+		small := len(vc.comps) <= 160
 		for k := range vc.comps {
-			names[k] = true
+			if small || vc.prescanSet[k] || isActivationLocal(k) || k == "next" || k == "now" {
+				names[k] = true
+			}
 		}
 	}
 	var keys []string
